@@ -76,6 +76,7 @@ def _child_main(conn, prop, tier, seed, indices, want_samples):
         conn.send(agg)
     finally:
         conn.close()
+    env.cleanup_scratch()
     os._exit(0)
 
 
@@ -147,6 +148,7 @@ def _eval_in_child(prop, prefix, case):
             conn.send(None)
         finally:
             conn.close()
+        env.cleanup_scratch()
         os._exit(0)
     pr = ctx.Process(target=body, args=(wc,))
     pr.start()
@@ -288,16 +290,17 @@ def run_check(prop, tier, seed=None):
         print('KNOWN-FINDING: property=%s %s' % (prop, what))
     status = 0
     reported = []
-    for v in fresh[:3]:
+    for v in fresh[:int(os.environ.get('VERIF_MAX_REPORT', 3))]:
         target = (v['clause'], v['site'])
         ev = lambda pre, c: _eval_in_child(prop, pre, c)
         prefix = []
-        mcase, n_exec, mv = shrink.minimise(m, v['case'], target, wall_s=plan.get('shrink_s', 90.0), evaluate=ev)
+        shrink_s = float(os.environ.get('VERIF_SHRINK_S', plan.get('shrink_s', 90.0)))
+        mcase, n_exec, mv = shrink.minimise(m, v['case'], target, wall_s=shrink_s, evaluate=ev)
         if mv is None and v.get('prefix_indices'):
             # the violation depends on what ran before it in its process: replay needs (part of) that history
             prefix = [m.generate(Rng(run_seed(prop, seed, j)), tier, j) for j in v['prefix_indices']]
             prefix, mcase, n2, mv = shrink.minimise_with_prefix(m, prefix, v['case'], target,
-                                                               wall_s=plan.get('shrink_s', 90.0), evaluate=ev)
+                                                               wall_s=shrink_s, evaluate=ev)
             n_exec += n2
         if mv is None:
             mcase, mv = v['case'], v
